@@ -21,6 +21,7 @@ from .common import (
     MAGIC_LAST,
     MAGIC_NOWIKI_CHAR,
     MAGIC_SQUOTE_CHAR,
+    is_numbered_arg_name,
     nowiki_quote,
 )
 from .parserfns import PARSER_FUNCTIONS
@@ -650,10 +651,8 @@ class TemplateNode(WikiNode):
                             parameter_value = parameter[
                                 equal_sign_index + 1 :
                             ].lstrip()
-                            if (
-                                parameter_name.isascii()
-                                and parameter_name.isdigit()
-                                and int(parameter_name) > 0
+                            if is_numbered_arg_name(
+                                parameter_name
                             ):  # value contains "="
                                 parameter_name = int(parameter_name)
                                 is_named = False
